@@ -94,7 +94,7 @@ def do_action(pr, action):
         return r.rc, r.err
     if action == 'tool':
         rc, out, recs = pr.run([])
-        if rc == 0 and not os.path.exists(pr.bfglog):
+        if rc == 0 and getattr(pr, 'bfglog', None) and not os.path.exists(pr.bfglog):
             # the backend saw nothing to regenerate: not a regeneration attempt at all
             return None, out
         return rc, out
